@@ -218,6 +218,7 @@ def _diff(a, b) -> str:
 class ChecksumMonitor(Monitor):
     def __init__(self, w, chunk_knob: bool = True):
         self.chunk_knob = chunk_knob
+        self.sent_end = 0
         self.eof_ck = None
         self.eof_size = None
         w.user_hooks_b.append(self._hook_b)
@@ -226,13 +227,22 @@ class ChecksumMonitor(Monitor):
     def on_call(self, w, rec) -> None:
         c = w.cfg
         if rec.ent == "a" and rec.hk == "src":
+            if rec.op == "put" and rec.ret is True and "PREMATURE" not in rec.tags:
+                self.sent_end = 0  # a new transaction
             for em in rec.emitted:
+                if em.kind == "FD" and em.pdu is not None:
+                    self.sent_end = max(self.sent_end, em.info[1] + em.info[2])
                 if em.kind == "EOF" and em.pdu is not None:
                     size = em.info[2]
                     cond = em.info[1]
                     if size > len(w.src_bytes):
                         w.violate("C09.eof_size_in_file", f"cond={cond} size={size}>{len(w.src_bytes)}", "")
                         continue
+                    # "... for the bytes it has sent": the EOF covers exactly the file bytes handed out so far (the whole file
+                    # for a No Error EOF, the sent prefix at a cancellation), also when it is re-sent after retransmissions
+                    if not c.metadata_only and size != self.sent_end and w.fs_fault_x is None:
+                        w.violate("C09.eof_covers_bytes_sent", f"cond={'cancel' if cond else 'noerr'} eof_size={size} bytes_sent={self.sent_end} "
+                                  f"resend={rec.inb is None and rec.pre.step == 'WAITING_FOR_EOF_ACK'}", "")
                     want = ref_checksum(int(c.ck), w.src_bytes[:size]).hex()
                     w.probe("C09.eof_checked")
                     if size < len(w.src_bytes):
